@@ -1,4 +1,1213 @@
-//! C05: harness domain (stub).
+//! C05: framing is invariant under how the transport splits the byte stream.
+//!
+//! Runs the real `MessageFramer` / `MessageDeframer` (crates/edp_client/src/framing.rs) over a scripted
+//! `AsyncRead` / `AsyncWrite`, and the second copy of the read loop
+//! (`Connection::receive_message_from_read_half`) over a loopback socket with scripted segmentation.
+//!
+//! Lines:
+//!   T  c05frame <h|d> <msg>                 ## ok <frame>
+//!   T  c05write <h|d> <msg> <wscript>       ## <ok|err-writezero|err-io> <chunks> <flushes>
+//!   T  c05read  <h|d> <events>              ## ok=<msg> ... err-<class>      (frames until the first error)
+//!   T  c05rh    <ctl> <events>              ## ok=<payload> ... err-<class>  (second copy, loopback socket)
+//!   P  c05split <h|d> <msgs> <events>       ## ok   (the script really is a clean split of the frames of <msgs>, and
+//!                                                   the Lean statement of the property gives msgs ++ [eof] for it)
+//!   X  split / writer / short / cap ...     the property evaluated on the implementation by the harness itself
+use crate::canon::{hex, hexarg};
+use crate::rng::Rng;
 use crate::Ctx;
+use edp_client::framing::{FrameMode, MessageDeframer, MessageFramer};
+use std::collections::VecDeque;
+use std::io;
+use std::pin::Pin;
+use std::task::{Context, Poll};
+use tokio::io::{AsyncRead, AsyncWrite, AsyncWriteExt, ReadBuf};
 
-pub fn run(_ctx: &mut Ctx) {}
+const FRAMING_CAP: u64 = 256 * 1024 * 1024;
+const CONN_CAP: u64 = 64 * 1024 * 1024;
+
+// ---------------------------------------------------------------------------------------------------------
+// scripted transport
+
+#[derive(Clone, Debug, PartialEq)]
+enum Ev {
+    Chunk(Vec<u8>),
+    Pending,
+    Eof,
+    Fail,
+    /// `Pending` without a wake-up: the `tokio::time::timeout` around the read fires
+    Stall,
+}
+
+fn evs_text(evs: &[Ev]) -> String {
+    if evs.is_empty() {
+        return "-".to_string();
+    }
+    evs.iter()
+        .map(|e| match e {
+            Ev::Chunk(b) => format!("c{}", hex(b)),
+            Ev::Pending => "p".to_string(),
+            Ev::Eof => "e".to_string(),
+            Ev::Fail => "f".to_string(),
+            Ev::Stall => "s".to_string(),
+        })
+        .collect::<Vec<_>>()
+        .join(",")
+}
+
+/// an `AsyncRead` that replays a script: one event per `poll_read`
+struct ScriptReader {
+    evs: VecDeque<Ev>,
+    polls: u64,
+}
+
+impl AsyncRead for ScriptReader {
+    fn poll_read(mut self: Pin<&mut Self>, cx: &mut Context<'_>, buf: &mut ReadBuf<'_>) -> Poll<io::Result<()>> {
+        self.polls += 1;
+        match self.evs.pop_front() {
+            None => Poll::Ready(Ok(())),
+            Some(Ev::Eof) => Poll::Ready(Ok(())),
+            Some(Ev::Fail) => Poll::Ready(Err(io::Error::new(io::ErrorKind::ConnectionReset, "scripted failure"))),
+            Some(Ev::Pending) => {
+                cx.waker().wake_by_ref();
+                Poll::Pending
+            }
+            Some(Ev::Stall) => {
+                // stays in place until the caller's timeout has fired and the caller removed it
+                // (tokio's `Timeout` polls the inner future once more before it looks at the deadline)
+                self.evs.push_front(Ev::Stall);
+                Poll::Pending
+            }
+            Some(Ev::Chunk(bs)) => {
+                let n = bs.len().min(buf.remaining());
+                buf.put_slice(&bs[..n]);
+                if n < bs.len() {
+                    self.evs.push_front(Ev::Chunk(bs[n..].to_vec()));
+                }
+                Poll::Ready(Ok(()))
+            }
+        }
+    }
+}
+
+#[derive(Clone, Debug)]
+enum WEv {
+    Accept(usize),
+    Pending,
+    Fail,
+}
+
+fn wevs_text(s: &[WEv]) -> String {
+    if s.is_empty() {
+        return "-".to_string();
+    }
+    s.iter()
+        .map(|e| match e {
+            WEv::Accept(k) => format!("a{}", k),
+            WEv::Pending => "p".to_string(),
+            WEv::Fail => "f".to_string(),
+        })
+        .collect::<Vec<_>>()
+        .join(",")
+}
+
+/// an `AsyncWrite` that records what it accepted; an exhausted script accepts everything
+struct ScriptWriter {
+    script: VecDeque<WEv>,
+    chunks: Vec<Vec<u8>>,
+    flushes: u64,
+}
+
+impl AsyncWrite for ScriptWriter {
+    fn poll_write(mut self: Pin<&mut Self>, cx: &mut Context<'_>, buf: &[u8]) -> Poll<io::Result<usize>> {
+        match self.script.pop_front() {
+            None => {
+                self.chunks.push(buf.to_vec());
+                Poll::Ready(Ok(buf.len()))
+            }
+            Some(WEv::Accept(k)) => {
+                let n = k.min(buf.len());
+                if n > 0 {
+                    self.chunks.push(buf[..n].to_vec());
+                }
+                Poll::Ready(Ok(n))
+            }
+            Some(WEv::Pending) => {
+                cx.waker().wake_by_ref();
+                Poll::Pending
+            }
+            Some(WEv::Fail) => Poll::Ready(Err(io::Error::new(io::ErrorKind::BrokenPipe, "scripted failure"))),
+        }
+    }
+    fn poll_flush(mut self: Pin<&mut Self>, _cx: &mut Context<'_>) -> Poll<io::Result<()>> {
+        self.flushes += 1;
+        Poll::Ready(Ok(()))
+    }
+    fn poll_shutdown(self: Pin<&mut Self>, _cx: &mut Context<'_>) -> Poll<io::Result<()>> {
+        Poll::Ready(Ok(()))
+    }
+}
+
+// ---------------------------------------------------------------------------------------------------------
+// running the implementation
+
+fn mode_of(c: char) -> FrameMode {
+    if c == 'h' { FrameMode::Handshake } else { FrameMode::Distribution }
+}
+
+fn prefix_size(c: char) -> usize {
+    if c == 'h' { 2 } else { 4 }
+}
+
+fn io_class(e: &io::Error) -> String {
+    match e.kind() {
+        io::ErrorKind::UnexpectedEof => "err-eof".to_string(),
+        io::ErrorKind::InvalidData => {
+            // "Message too large: {} bytes (max: {})"
+            let s = e.to_string();
+            let nums: Vec<String> = s
+                .split(|c: char| !c.is_ascii_digit())
+                .filter(|x| !x.is_empty())
+                .map(|x| x.to_string())
+                .collect();
+            if s.starts_with("Message too large") && nums.len() == 2 {
+                format!("err-toolarge:{}:{}", nums[0], nums[1])
+            } else {
+                "err-invalid".to_string()
+            }
+        }
+        io::ErrorKind::WriteZero => "err-writezero".to_string(),
+        _ => "err-io".to_string(),
+    }
+}
+
+/// `read_framed` repeatedly until the first error. Returns the result tokens and the number of polls.
+fn run_read(rt: &tokio::runtime::Runtime, m: char, evs: &[Ev]) -> (Vec<String>, u64) {
+    let bound = evs.len() + evs.iter().map(|e| if let Ev::Chunk(b) = e { b.len() } else { 0 }).sum::<usize>() + 2;
+    let evs: VecDeque<Ev> = evs.iter().cloned().collect();
+    let r = std::panic::catch_unwind(std::panic::AssertUnwindSafe(|| {
+        rt.block_on(async move {
+            let mut reader = ScriptReader { evs, polls: 0 };
+            let d = MessageDeframer::new(mode_of(m));
+            let mut out = Vec::new();
+            for _ in 0..bound {
+                match d.read_framed(&mut reader).await {
+                    Ok(b) => out.push(format!("ok={}", hexarg(&b))),
+                    Err(e) => {
+                        out.push(io_class(&e));
+                        return (out, reader.polls);
+                    }
+                }
+            }
+            out.push("no-termination".to_string());
+            (out, reader.polls)
+        })
+    }));
+    match r {
+        Ok(x) => x,
+        Err(_) => (vec!["panic".to_string()], 0),
+    }
+}
+
+/// the call `FramedTransport::read` makes — `timeout(d, deframer.read_framed(stream))` — repeated by a caller that treats
+/// `Timeout` as recoverable; the clock of `rt` is paused, so a `Stall` lets the timeout fire at once
+fn run_read_retry(rt: &tokio::runtime::Runtime, m: char, evs: &[Ev]) -> Vec<String> {
+    let bound = evs.len() + evs.iter().map(|e| if let Ev::Chunk(b) = e { b.len() } else { 0 }).sum::<usize>() + 2;
+    let evs: VecDeque<Ev> = evs.iter().cloned().collect();
+    let r = std::panic::catch_unwind(std::panic::AssertUnwindSafe(|| {
+        rt.block_on(async move {
+            let mut reader = ScriptReader { evs, polls: 0 };
+            let d = MessageDeframer::new(mode_of(m));
+            let mut out = Vec::new();
+            for _ in 0..bound {
+                match tokio::time::timeout(std::time::Duration::from_millis(50), d.read_framed(&mut reader)).await {
+                    Err(_) => {
+                        out.push("err-timeout".to_string());
+                        if reader.evs.front() == Some(&Ev::Stall) {
+                            reader.evs.pop_front();
+                        } else {
+                            out.push("timeout-without-stall".to_string());
+                            return out;
+                        }
+                    }
+                    Ok(Ok(b)) => out.push(format!("ok={}", hexarg(&b))),
+                    Ok(Err(e)) => {
+                        out.push(io_class(&e));
+                        return out;
+                    }
+                }
+            }
+            out.push("no-termination".to_string());
+            out
+        })
+    }));
+    r.unwrap_or_else(|_| vec!["panic".to_string()])
+}
+
+fn run_write(rt: &tokio::runtime::Runtime, m: char, msg: &[u8], script: &[WEv]) -> (String, Vec<Vec<u8>>, u64) {
+    let script: VecDeque<WEv> = script.iter().cloned().collect();
+    let r = std::panic::catch_unwind(std::panic::AssertUnwindSafe(|| {
+        rt.block_on(async move {
+            let mut w = ScriptWriter { script, chunks: vec![], flushes: 0 };
+            let f = MessageFramer::new(mode_of(m));
+            let res = match f.write_framed(&mut w, msg).await {
+                Ok(()) => "ok".to_string(),
+                Err(e) => io_class(&e),
+            };
+            (res, w.chunks, w.flushes)
+        })
+    }));
+    match r {
+        Ok(x) => x,
+        Err(_) => ("panic".to_string(), vec![], 0),
+    }
+}
+
+fn frame_real(m: char, msg: &[u8]) -> Option<Vec<u8>> {
+    let f = MessageFramer::new(mode_of(m));
+    std::panic::catch_unwind(std::panic::AssertUnwindSafe(|| f.frame_message(msg))).ok()
+}
+
+/// the frame as the protocol defines it (independent of the implementation); only for messages that fit
+fn frame_spec(m: char, msg: &[u8]) -> Vec<u8> {
+    let mut v = Vec::with_capacity(msg.len() + 4);
+    if m == 'h' {
+        v.extend_from_slice(&(msg.len() as u16).to_be_bytes());
+    } else {
+        v.extend_from_slice(&(msg.len() as u32).to_be_bytes());
+    }
+    v.extend_from_slice(msg);
+    v
+}
+
+fn fits(m: char, len: usize) -> bool {
+    if m == 'h' { len < 65536 } else { (len as u64) < (1u64 << 32) }
+}
+
+// ---------------------------------------------------------------------------------------------------------
+// generators
+
+/// cut `stream` at the given sorted cut positions (0 < c < len) into chunk events
+fn cut(stream: &[u8], cuts: &[usize]) -> Vec<Ev> {
+    let mut out = Vec::new();
+    let mut prev = 0;
+    for &c in cuts.iter().chain(std::iter::once(&stream.len())) {
+        if c > prev {
+            out.push(Ev::Chunk(stream[prev..c].to_vec()));
+            prev = c;
+        }
+    }
+    out
+}
+
+/// every chunking of a stream of n bytes is a subset of the n-1 interior cut positions
+fn cuts_of_mask(n: usize, mask: u64) -> Vec<usize> {
+    (1..n).filter(|i| mask >> (i - 1) & 1 == 1).collect()
+}
+
+fn with_pendings(rng: &mut Rng, evs: Vec<Ev>, style: u64) -> Vec<Ev> {
+    // style 0: none, 1: one Pending before every chunk, 2: random runs of Pending anywhere (also leading/trailing)
+    match style {
+        0 => evs,
+        1 => {
+            let mut out = Vec::new();
+            for e in evs {
+                out.push(Ev::Pending);
+                out.push(e);
+            }
+            out
+        }
+        _ => {
+            let mut out = Vec::new();
+            for e in evs {
+                while rng.chance(1, 3) {
+                    out.push(Ev::Pending);
+                }
+                out.push(e);
+            }
+            while rng.chance(1, 3) {
+                out.push(Ev::Pending);
+            }
+            out
+        }
+    }
+}
+
+fn msg_len(rng: &mut Rng, m: char) -> usize {
+    match rng.below(20) {
+        0 | 1 => 0,
+        2 | 3 => 1,
+        4 => 2,
+        5 => 3,
+        6 => 4,
+        7 => 255,
+        8 => 256,
+        9 => 257,
+        10 => rng.range(5, 40) as usize,
+        11 => rng.range(100, 700) as usize,
+        12 if m == 'd' && rng.chance(1, 3) => rng.range(2000, 9000) as usize,
+        _ => rng.range(1, 24) as usize,
+    }
+}
+
+fn msg_bytes(rng: &mut Rng, n: usize) -> Vec<u8> {
+    // biased towards bytes that look like length prefixes
+    match rng.below(4) {
+        0 => vec![0u8; n],
+        1 => (0..n).map(|_| *rng.pick(&[0u8, 0, 1, 2, 0xff])).collect(),
+        _ => rng.bytes(n),
+    }
+}
+
+/// random cut positions, biased to the frame boundaries and their neighbours
+fn random_cuts(rng: &mut Rng, n: usize, boundaries: &[usize]) -> Vec<usize> {
+    if n < 2 {
+        return vec![];
+    }
+    let mut cuts = std::collections::BTreeSet::new();
+    match rng.below(6) {
+        0 => {} // one read returns everything
+        1 => {
+            // byte by byte (bounded)
+            if n <= 600 {
+                for i in 1..n {
+                    cuts.insert(i);
+                }
+            } else {
+                for _ in 0..300 {
+                    cuts.insert(rng.range(1, n as u64 - 1) as usize);
+                }
+            }
+        }
+        2 => {
+            // exactly at the frame boundaries (each read returns exactly one frame)
+            for &b in boundaries {
+                if b > 0 && b < n {
+                    cuts.insert(b);
+                }
+            }
+        }
+        3 => {
+            // everywhere except the frame boundaries: every read straddles
+            for &b in boundaries {
+                for d in [-1i64, 1] {
+                    let c = b as i64 + d;
+                    if c > 0 && (c as usize) < n && rng.chance(2, 3) {
+                        cuts.insert(c as usize);
+                    }
+                }
+            }
+        }
+        _ => {
+            let k = rng.range(1, 12);
+            for _ in 0..k {
+                if rng.chance(1, 2) && !boundaries.is_empty() {
+                    let b = *rng.pick(boundaries) as i64 + rng.range(0, 6) as i64 - 3;
+                    if b > 0 && (b as usize) < n {
+                        cuts.insert(b as usize);
+                    }
+                } else {
+                    cuts.insert(rng.range(1, n as u64 - 1) as usize);
+                }
+            }
+        }
+    }
+    cuts.into_iter().collect()
+}
+
+/// stream of the frames (protocol definition) plus the prefix/body boundaries inside it
+fn stream_of(m: char, msgs: &[Vec<u8>]) -> (Vec<u8>, Vec<usize>) {
+    let mut s = Vec::new();
+    let mut b = Vec::new();
+    for x in msgs {
+        b.push(s.len());
+        s.extend_from_slice(&frame_spec(m, x));
+        b.push(s.len() - x.len());
+    }
+    b.push(s.len());
+    (s, b)
+}
+
+fn msgs_text(msgs: &[Vec<u8>]) -> String {
+    if msgs.is_empty() {
+        return "-".to_string();
+    }
+    msgs.iter().map(|x| format!("m{}", hex(x))).collect::<Vec<_>>().join(",")
+}
+
+// ---------------------------------------------------------------------------------------------------------
+// checks
+
+/// T line for a read script, and the property itself when `msgs` is given (the script is a clean split of their frames)
+fn read_case(ctx: &mut Ctx, rt: &tokio::runtime::Runtime, tag: &str, m: char, evs: &[Ev], msgs: Option<&[Vec<u8>]>, pline: bool) {
+    let (res, polls) = run_read(rt, m, evs);
+    ctx.add("read_polls", polls);
+    ctx.count(&format!("read_end_{}", res.last().map(|s| s.split(':').next().unwrap_or("")).unwrap_or("none")));
+    let et = evs_text(evs);
+    ctx.tie(tag, &format!("c05read {} {}", m, et), &res.join(" "));
+    if let Some(msgs) = msgs {
+        let mut want: Vec<String> = msgs.iter().map(|x| format!("ok={}", hexarg(x))).collect();
+        want.push("err-eof".to_string());
+        if res != want {
+            ctx.fail(
+                "split",
+                &format!("mode={} msgs={} events={} got={}", m, msgs_text(msgs), et, res.join(" ")),
+            );
+        }
+        ctx.count("split_checked");
+        if pline {
+            ctx.prop(tag, &format!("c05split {} {} {}", m, msgs_text(msgs), et), "ok");
+        }
+    }
+}
+
+fn write_case(ctx: &mut Ctx, rt: &tokio::runtime::Runtime, tag: &str, m: char, msg: &[u8], script: &[WEv]) {
+    let (res, chunks, flushes) = run_write(rt, m, msg, script);
+    let ct = if chunks.is_empty() { "-".to_string() } else { chunks.iter().map(|c| hex(c)).collect::<Vec<_>>().join(",") };
+    ctx.tie(tag, &format!("c05write {} {} {}", m, hexarg(msg), wevs_text(script)), &format!("{} {} {}", res, ct, flushes));
+    ctx.count(&format!("write_{}", res));
+    // property: what the streaming writer put on the wire is the one-shot frame (a prefix of it when the sink failed)
+    let wire: Vec<u8> = chunks.concat();
+    match frame_real(m, msg) {
+        None => ctx.fail("writer", &format!("frame_message panicked mode={} len={}", m, msg.len())),
+        Some(one) => {
+            let good = if res == "ok" { wire == one && flushes == 1 } else { one.starts_with(&wire) && wire.len() < one.len() };
+            if !good {
+                ctx.fail(
+                    "writer",
+                    &format!("mode={} msg={} script={} res={} wire={} oneshot={}", m, hexarg(msg), wevs_text(script), res, hex(&wire), hex(&one)),
+                );
+            }
+            ctx.count("writer_checked");
+        }
+    }
+}
+
+fn frame_case(ctx: &mut Ctx, tag: &str, m: char, msg: &[u8]) {
+    let r = match frame_real(m, msg) {
+        Some(f) => {
+            if fits(m, msg.len()) && f != frame_spec(m, msg) {
+                ctx.fail("frame", &format!("mode={} msg={} frame={}", m, hexarg(msg), hex(&f)));
+            }
+            format!("ok {}", hex(&f))
+        }
+        None => "panic".to_string(),
+    };
+    ctx.tie(tag, &format!("c05frame {} {}", m, hexarg(msg)), &r);
+}
+
+fn random_wscript(rng: &mut Rng, total: usize) -> Vec<WEv> {
+    let mut s = Vec::new();
+    let n = rng.below(8);
+    for _ in 0..n {
+        s.push(match rng.below(12) {
+            0 => WEv::Pending,
+            1 => WEv::Pending,
+            2 => WEv::Accept(0),
+            3 => WEv::Fail,
+            4 => WEv::Accept(1),
+            5 => WEv::Accept(2),
+            6 => WEv::Accept(3),
+            7 => WEv::Accept(4),
+            8 => WEv::Accept(total + 5),
+            _ => WEv::Accept(rng.range(1, total as u64 + 2) as usize),
+        });
+    }
+    s
+}
+
+// ---------------------------------------------------------------------------------------------------------
+
+fn exhaustive(ctx: &mut Ctx, rt: &tokio::runtime::Runtime) {
+    // message lists whose stream is short enough to try every chunking (2^(n-1) of them)
+    let quick: Vec<(char, Vec<Vec<u8>>)> = vec![
+        ('h', vec![vec![0xaa, 0xbb], vec![], vec![1, 2, 3]]),    // 4 + 2 + 5 = 11 bytes
+        ('h', vec![vec![], vec![0, 0], vec![0]]),                // 2 + 4 + 3 = 9, zero bytes that look like ticks
+        ('d', vec![vec![7], vec![]]),                            // 5 + 4 = 9
+        ('d', vec![vec![0, 0], vec![9]]),                        // 6 + 5 = 11
+        ('d', vec![vec![0, 0, 0, 1, 5, 0, 0, 0]]),               // 12: a body that looks like frames
+    ];
+    let thorough: Vec<(char, Vec<Vec<u8>>)> = vec![
+        ('h', vec![vec![1], vec![], vec![2, 3], vec![], vec![4, 5, 6]]), // 3+2+4+2+5 = 16
+        ('d', vec![vec![1], vec![], vec![2, 3]]),                         // 5+4+6 = 15
+        ('d', vec![vec![], vec![], vec![]]),                              // 12: only ticks
+    ];
+    let mut lists = quick;
+    if ctx.thorough {
+        lists.extend(thorough);
+    }
+    for (m, msgs) in lists {
+        let (stream, _) = stream_of(m, &msgs);
+        let n = stream.len();
+        for mask in 0..(1u64 << (n - 1)) {
+            let evs = cut(&stream, &cuts_of_mask(n, mask));
+            // Pending before every chunk on odd masks, none on even ones: both styles see every chunking
+            // of the streams up to 10 bytes; above that the styles alternate to keep the file small
+            if n <= 10 {
+                read_case(ctx, rt, "exh", m, &evs, Some(&msgs), mask % 16 == 0);
+                let evp = with_pendings(&mut ctx.rng, evs, 1);
+                read_case(ctx, rt, "exh", m, &evp, Some(&msgs), false);
+            } else {
+                let evs = with_pendings(&mut ctx.rng, evs, mask % 2);
+                read_case(ctx, rt, "exh", m, &evs, Some(&msgs), mask % 64 == 0);
+            }
+            ctx.count("exhaustive_chunkings");
+        }
+        // every truncation point of the stream x a few chunkings: never a short message
+        for keep in 0..n {
+            for _ in 0..4 {
+                let mask = ctx.rng.next();
+                let mut evs = cut(&stream[..keep], &cuts_of_mask(keep.max(1), mask & ((1u64 << keep.max(1).saturating_sub(1)) - 1)));
+                let style = ctx.rng.below(3);
+                evs = with_pendings(&mut ctx.rng, evs, style);
+                if ctx.rng.chance(1, 2) {
+                    evs.push(Ev::Eof);
+                }
+                truncated_case(ctx, rt, "trunc", m, &msgs, keep, &evs);
+            }
+        }
+    }
+    ctx.add("exhaustive", 1);
+}
+
+/// the stream of `msgs` cut off after `keep` bytes: the complete frames come out, then an error, never a short message
+fn truncated_case(ctx: &mut Ctx, rt: &tokio::runtime::Runtime, tag: &str, m: char, msgs: &[Vec<u8>], keep: usize, evs: &[Ev]) {
+    let (res, _) = run_read(rt, m, evs);
+    ctx.tie(tag, &format!("c05read {} {}", m, evs_text(evs)), &res.join(" "));
+    let mut want = Vec::new();
+    let mut pos = 0;
+    for x in msgs {
+        pos += prefix_size(m) + x.len();
+        if pos <= keep {
+            want.push(format!("ok={}", hexarg(x)));
+        }
+    }
+    want.push("err-eof".to_string());
+    if res != want {
+        ctx.fail("short", &format!("mode={} msgs={} keep={} events={} got={}", m, msgs_text(msgs), keep, evs_text(evs), res.join(" ")));
+    }
+    ctx.count("truncated_checked");
+}
+
+fn random_streams(ctx: &mut Ctx, rt: &tokio::runtime::Runtime) {
+    let n = ctx.n(700, 5000);
+    for i in 0..n {
+        let m = if ctx.rng.chance(1, 2) { 'h' } else { 'd' };
+        let k = ctx.rng.range(0, 6) as usize;
+        let mut msgs = Vec::new();
+        for _ in 0..k {
+            let l = msg_len(&mut ctx.rng, m);
+            msgs.push(msg_bytes(&mut ctx.rng, l));
+        }
+        ctx.add("random_msgs", k as u64);
+        for x in &msgs {
+            ctx.count(if x.is_empty() { "msg_len_0" } else if x.len() == 1 { "msg_len_1" } else if x.len() < 256 { "msg_len_lt256" } else { "msg_len_ge256" });
+        }
+        let (stream, bounds) = stream_of(m, &msgs);
+        let cuts = random_cuts(&mut ctx.rng, stream.len(), &bounds);
+        ctx.add("random_cuts", cuts.len() as u64);
+        let evs = cut(&stream, &cuts);
+        let style = ctx.rng.below(3);
+        let evs = with_pendings(&mut ctx.rng, evs, style);
+        match ctx.rng.below(10) {
+            0..=5 => {
+                // clean split: the property
+                read_case(ctx, rt, "gen", m, &evs, Some(&msgs), i % 4 == 0 && stream.len() < 600);
+            }
+            6 => {
+                // cut off somewhere
+                if !stream.is_empty() {
+                    let keep = ctx.rng.below(stream.len() as u64) as usize;
+                    let c2: Vec<usize> = cuts.iter().cloned().filter(|&c| c < keep).collect();
+                    let mut e2 = cut(&stream[..keep], &c2);
+                    if ctx.rng.chance(1, 2) {
+                        e2.push(Ev::Eof);
+                        // whatever follows a 0-byte read is not looked at by the failing call
+                        if ctx.rng.chance(1, 2) {
+                            e2.push(Ev::Chunk(stream[keep..].to_vec()));
+                        }
+                    }
+                    truncated_case(ctx, rt, "trunc", m, &msgs, keep, &e2);
+                }
+            }
+            _ => {
+                // dirty scripts: eof / failure / empty chunk / garbage anywhere (model-vs-code only)
+                let mut e2 = evs.clone();
+                let edits = ctx.rng.range(1, 3);
+                for _ in 0..edits {
+                    let at = ctx.rng.below(e2.len() as u64 + 1) as usize;
+                    let ev = match ctx.rng.below(5) {
+                        0 => Ev::Eof,
+                        1 => Ev::Fail,
+                        2 => Ev::Chunk(vec![]),
+                        3 => Ev::Pending,
+                        _ => {
+                            let l = ctx.rng.range(1, 6) as usize;
+                            Ev::Chunk(msg_bytes(&mut ctx.rng, l))
+                        }
+                    };
+                    e2.insert(at, ev);
+                }
+                // garbage lengths above 256 MiB would make the reader wait for more than the script has: fine, it ends in eof
+                read_case(ctx, rt, "dirty", m, &e2, None, false);
+                ctx.count("dirty_scripts");
+            }
+        }
+    }
+}
+
+fn boundaries(ctx: &mut Ctx, rt: &tokio::runtime::Runtime) {
+    // message lengths 0, 1, 2^16-1, 2^16 and their neighbours, both modes, a handful of cuttings each
+    let mut lens: Vec<usize> = vec![0, 1, 2, 254, 255, 256, 65535, 65536];
+    if ctx.thorough {
+        lens.extend([65534, 65537]);
+    }
+    for m in ['h', 'd'] {
+        for &l in &lens {
+            let msg: Vec<u8> = if l > 1000 { (0..l).map(|i| (i * 7 + l) as u8).collect() } else { ctx.rng.bytes(l) };
+            ctx.count(&format!("boundary_len_{}", l));
+            if l <= 300 {
+                frame_case(ctx, "bound", m, &msg);
+            } else {
+                // big frames: the T line is the write (chunks are the frame), not a second copy of 128 KiB of hex
+                let f = frame_real(m, &msg).unwrap_or_default();
+                let exp: Vec<u8> = if m == 'h' { (l as u16).to_be_bytes().to_vec() } else { (l as u32).to_be_bytes().to_vec() };
+                if f.len() != prefix_size(m) + l || f[..prefix_size(m)] != exp[..] || f[prefix_size(m)..] != msg[..] {
+                    ctx.fail("frame", &format!("mode={} len={} prefix={}", m, l, hex(&f[..prefix_size(m).min(f.len())])));
+                }
+            }
+            write_case(ctx, rt, "bound", m, &msg, &[]);
+            if !fits(m, l) {
+                // `data.len() as u16` wraps: outside the property (messages must fit), model-vs-code only
+                ctx.count("unfit_messages");
+                let f = frame_real(m, &msg).unwrap_or_default();
+                let evs = cut(&f, &[1, 2, 3]);
+                read_case(ctx, rt, "unfit", m, &evs, None, false);
+                continue;
+            }
+            let msgs = vec![msg.clone(), vec![], vec![1]];
+            let (stream, bounds) = stream_of(m, &msgs);
+            let reps = if l > 1000 { 1 } else { 4 };
+            for r in 0..reps {
+                let cuts = if r == 0 && l <= 1000 { vec![] } else { random_cuts(&mut ctx.rng, stream.len(), &bounds) };
+                let evs = cut(&stream, &cuts);
+                let style = ctx.rng.below(3);
+                let evs = with_pendings(&mut ctx.rng, evs, style);
+                read_case(ctx, rt, "bound", m, &evs, Some(&msgs), l <= 300);
+            }
+            // one byte short
+            if l > 0 {
+                let keep = prefix_size(m) + l - 1;
+                let evs = cut(&stream[..keep], &[prefix_size(m)]);
+                truncated_case(ctx, rt, "bound", m, &msgs, keep, &evs);
+            }
+        }
+    }
+    // around the cap (distribution mode only; 2-byte lengths cannot reach it). The body is never sent.
+    let cap = FRAMING_CAP;
+    for declared in [cap - 1, cap, cap + 1, cap + 2, 0x7fff_ffff, 0x8000_0000, 0xffff_fffe, 0xffff_ffff] {
+        for variant in 0..3 {
+            let pre = (declared as u32).to_be_bytes().to_vec();
+            let mut stream = pre.clone();
+            stream.extend_from_slice(&[0xee; 5]); // a few body bytes, far fewer than declared
+            let cuts: Vec<usize> = match variant {
+                0 => vec![],
+                1 => vec![1, 2, 3, 4],
+                _ => vec![3, 6],
+            };
+            let evs = with_pendings(&mut ctx.rng, cut(&stream, &cuts), variant as u64 % 2);
+            let (res, _) = run_read(rt, 'd', &evs);
+            ctx.tie("cap", &format!("c05read d {}", evs_text(&evs)), &res.join(" "));
+            let want = if declared > cap { format!("err-toolarge:{}:{}", declared, cap) } else { "err-eof".to_string() };
+            if res != vec![want.clone()] {
+                ctx.fail("cap", &format!("declared={} events={} got={} want={}", declared, evs_text(&evs), res.join(" "), want));
+            }
+            ctx.count(if declared > cap { "over_cap_cases" } else { "at_cap_cases" });
+        }
+    }
+    // a good frame, then an over-cap one: the good one is delivered first
+    let mut stream = frame_spec('d', &[1, 2, 3]);
+    stream.extend_from_slice(&((cap + 1) as u32).to_be_bytes());
+    let evs = cut(&stream, &[2, 9]);
+    read_case(ctx, rt, "cap", 'd', &evs, None, false);
+}
+
+fn writers(ctx: &mut Ctx, rt: &tokio::runtime::Runtime) {
+    let n = ctx.n(500, 4000);
+    for _ in 0..n {
+        let m = if ctx.rng.chance(1, 2) { 'h' } else { 'd' };
+        let l = match ctx.rng.below(6) {
+            0 => 0,
+            1 => 1,
+            _ => ctx.rng.range(0, 40) as usize,
+        };
+        let msg = msg_bytes(&mut ctx.rng, l);
+        frame_case(ctx, "gen", m, &msg);
+        let script = if ctx.rng.chance(1, 4) { vec![] } else { random_wscript(&mut ctx.rng, l + 4) };
+        write_case(ctx, rt, "gen", m, &msg, &script);
+    }
+    // every way a sink can take a 7-byte frame in pieces (exhaustive over the compositions of 7 = 2+5 and 4+3)
+    for (m, msg) in [('h', vec![1u8, 2, 3, 4, 5]), ('d', vec![9u8, 8, 7])] {
+        for mask in 0..64u64 {
+            // acceptance sizes: cut positions of the 7 bytes; the prefix and the body are separate buffers, so a quota
+            // never spans both: split the quotas at the prefix boundary
+            let p = prefix_size(m);
+            let cuts = cuts_of_mask(7, mask);
+            let mut script = Vec::new();
+            let mut prev = 0;
+            for c in cuts.iter().cloned().chain(std::iter::once(7)) {
+                if prev < p && c > p {
+                    script.push(WEv::Accept(p - prev));
+                    script.push(WEv::Accept(c - p));
+                } else {
+                    script.push(WEv::Accept(c - prev));
+                }
+                prev = c;
+            }
+            write_case(ctx, rt, "exhw", m, &msg, &script);
+        }
+    }
+}
+
+// ---------------------------------------------------------------------------------------------------------
+// the second copy of the read loop, over a loopback socket
+
+/// control term `{2, '', x}` (SEND) written by hand: 131, SMALL_TUPLE 3, SMALL_INT 2, SMALL_ATOM_UTF8 "", SMALL_ATOM_UTF8 "x"
+const CTL: [u8; 10] = [131, 104, 3, 97, 2, 119, 0, 119, 1, b'x'];
+
+fn rh_body(payload: &[u8]) -> Vec<u8> {
+    let mut b = vec![112u8];
+    b.extend_from_slice(&CTL);
+    b.extend_from_slice(&[131, 109]);
+    b.extend_from_slice(&(payload.len() as u32).to_be_bytes());
+    b.extend_from_slice(payload);
+    b
+}
+
+fn rh_class(e: &edp_client::Error) -> String {
+    use edp_client::Error as E;
+    match e {
+        E::Io(e) => io_class(e),
+        E::Timeout(_) => "err-timeout".to_string(),
+        E::MessageTooLarge { size, max } => format!("err-toolarge:{}:{}", size, max),
+        E::Protocol(_) => "err-protocol".to_string(),
+        E::InvalidStateMessage(_) => "err-empty".to_string(),
+        E::Decode(_) | E::ContextualDecode(_) => "err-decode".to_string(),
+        _ => "err-other".to_string(),
+    }
+}
+
+/// Sends the script over a real loopback connection (one write + flush per chunk, yields in between, shutdown at the
+/// end or at the first `Eof`) while the real function reads on the other side until its first error.
+fn run_rh(rt: &tokio::runtime::Runtime, evs: &[Ev]) -> Option<Vec<String>> {
+    let evs: Vec<Ev> = evs.to_vec();
+    let r = std::panic::catch_unwind(std::panic::AssertUnwindSafe(|| {
+        rt.block_on(async move {
+            let listener = tokio::net::TcpListener::bind("127.0.0.1:0").await.ok()?;
+            let addr = listener.local_addr().ok()?;
+            let (client, server) = tokio::join!(tokio::net::TcpStream::connect(addr), listener.accept());
+            let client = client.ok()?;
+            let (mut server, _) = server.ok()?;
+            server.set_nodelay(true).ok()?;
+            let (mut rh, _wh) = client.into_split();
+            let writer = async move {
+                for e in evs {
+                    match e {
+                        Ev::Chunk(b) => {
+                            if server.write_all(&b).await.is_err() {
+                                break;
+                            }
+                            let _ = server.flush().await;
+                            for _ in 0..3 {
+                                tokio::task::yield_now().await;
+                            }
+                        }
+                        Ev::Pending => {
+                            for _ in 0..3 {
+                                tokio::task::yield_now().await;
+                            }
+                        }
+                        Ev::Eof | Ev::Fail | Ev::Stall => break,
+                    }
+                }
+                let _ = server.shutdown().await;
+                // keep the socket until the reader is done (dropping it is also fine after shutdown)
+                server
+            };
+            let reader = async {
+                let mut out = Vec::new();
+                for _ in 0..10_000 {
+                    match edp_client::Connection::receive_message_from_read_half(&mut rh, std::time::Duration::from_secs(20)).await {
+                        Ok((edp_client::control::ControlMessage::Send { .. }, Some(erltf::OwnedTerm::Binary(b)))) => {
+                            out.push(format!("ok={}", hexarg(&b)))
+                        }
+                        Ok(_) => out.push("ok-other".to_string()),
+                        Err(e) => {
+                            out.push(rh_class(&e));
+                            return out;
+                        }
+                    }
+                }
+                out.push("no-termination".to_string());
+                out
+            };
+            let (_s, out) = tokio::join!(writer, reader);
+            Some(out)
+        })
+    }));
+    match r {
+        Ok(x) => x,
+        Err(_) => Some(vec!["panic".to_string()]),
+    }
+}
+
+fn second_copy(ctx: &mut Ctx, rt: &tokio::runtime::Runtime) {
+    // is there a loopback interface at all?
+    if run_rh(rt, &[]).is_none() {
+        ctx.count("rh_skipped_no_loopback");
+        return;
+    }
+    let n = ctx.n(150, 1500);
+    for i in 0..n {
+        // bodies: payload messages and ticks (zero length, skipped by the loop)
+        let k = ctx.rng.range(0, 5) as usize;
+        let mut frames: Vec<Option<Vec<u8>>> = Vec::new(); // None = tick
+        for _ in 0..k {
+            if ctx.rng.chance(1, 3) {
+                frames.push(None);
+            } else {
+                let l = match ctx.rng.below(6) {
+                    0 => 0,
+                    1 => 1,
+                    2 => ctx.rng.range(200, 3000) as usize,
+                    _ => ctx.rng.range(0, 30) as usize,
+                };
+                frames.push(Some(msg_bytes(&mut ctx.rng, l)));
+            }
+        }
+        let bodies: Vec<Vec<u8>> = frames.iter().map(|f| f.as_ref().map(|p| rh_body(p)).unwrap_or_default()).collect();
+        let (mut stream, bounds) = stream_of('d', &bodies);
+        let kind = ctx.rng.below(10);
+        let mut want: Vec<String> = frames.iter().flatten().map(|p| format!("ok={}", hexarg(p))).collect();
+        match kind {
+            0 => {
+                // over the cap of this copy (64 MiB), body never sent
+                let declared = *ctx.rng.pick(&[CONN_CAP + 1, CONN_CAP + 2, FRAMING_CAP, 0xffff_ffff]);
+                stream.extend_from_slice(&(declared as u32).to_be_bytes());
+                want.push(format!("err-toolarge:{}:{}", declared, CONN_CAP));
+            }
+            1 => {
+                // exactly at the cap / below: accepted, then the stream ends inside the body
+                let declared = *ctx.rng.pick(&[CONN_CAP, CONN_CAP - 1]);
+                stream.extend_from_slice(&(declared as u32).to_be_bytes());
+                stream.extend_from_slice(&[112, 1, 2]);
+                want.push("err-eof".to_string());
+            }
+            2 => {
+                // wrong marker
+                let mut b = rh_body(&[1, 2, 3]);
+                b[0] = *ctx.rng.pick(&[0u8, 111, 113, 131]);
+                stream.extend_from_slice(&frame_spec('d', &b));
+                want.push("err-protocol".to_string());
+            }
+            3 => {
+                // cut off inside the last frame
+                if !stream.is_empty() {
+                    let keep = ctx.rng.below(stream.len() as u64) as usize;
+                    stream.truncate(keep);
+                    want.clear();
+                    let mut pos = 0;
+                    for (f, b) in frames.iter().zip(bodies.iter()) {
+                        pos += 4 + b.len();
+                        if pos <= keep {
+                            if let Some(p) = f {
+                                want.push(format!("ok={}", hexarg(p)));
+                            }
+                        }
+                    }
+                }
+                want.push("err-eof".to_string());
+            }
+            _ => want.push("err-eof".to_string()),
+        }
+        let cuts = random_cuts(&mut ctx.rng, stream.len(), &bounds);
+        let style = ctx.rng.below(3);
+        let evs = with_pendings(&mut ctx.rng, cut(&stream, &cuts), style);
+        let Some(res) = run_rh(rt, &evs) else {
+            ctx.count("rh_socket_errors");
+            continue;
+        };
+        ctx.count(&format!("rh_end_{}", res.last().map(|s| s.split(':').next().unwrap_or("")).unwrap_or("none")));
+        ctx.tie("rh", &format!("c05rh {} {}", hex(&CTL), evs_text(&evs)), &res.join(" "));
+        if res != want {
+            ctx.fail("rh-split", &format!("events={} got={} want={}", evs_text(&evs), res.join(" "), want.join(" ")));
+        }
+        ctx.count("rh_checked");
+        let _ = i;
+    }
+}
+
+/// `FramedTransport` (transport.rs) is the deframer/framer pair over the two halves of a socket: one loopback round per mode
+fn transport_loopback(ctx: &mut Ctx, rt: &tokio::runtime::Runtime) {
+    use edp_client::transport::FramedTransport;
+    let n = ctx.n(20, 200);
+    for _ in 0..n {
+        let m = if ctx.rng.chance(1, 2) { 'h' } else { 'd' };
+        let k = ctx.rng.range(1, 4) as usize;
+        let msgs: Vec<Vec<u8>> = (0..k)
+            .map(|_| {
+                let l = msg_len(&mut ctx.rng, m).min(3000);
+                msg_bytes(&mut ctx.rng, l)
+            })
+            .collect();
+        let (stream, bounds) = stream_of(m, &msgs);
+        let cuts = random_cuts(&mut ctx.rng, stream.len(), &bounds);
+        let chunks = cut(&stream, &cuts);
+        let msgs2 = msgs.clone();
+        let r = std::panic::catch_unwind(std::panic::AssertUnwindSafe(|| {
+            rt.block_on(async move {
+                let listener = tokio::net::TcpListener::bind("127.0.0.1:0").await.ok()?;
+                let addr = listener.local_addr().ok()?;
+                let (client, server) = tokio::join!(tokio::net::TcpStream::connect(addr), listener.accept());
+                let (mut server, _) = server.ok()?;
+                server.set_nodelay(true).ok()?;
+                let mut t = FramedTransport::new(std::time::Duration::from_secs(20));
+                t.connect(client.ok()?);
+                t.set_frame_mode(mode_of(m));
+                // peer -> transport, scripted segmentation
+                let writer = async {
+                    for e in chunks {
+                        if let Ev::Chunk(b) = e {
+                            let _ = server.write_all(&b).await;
+                            let _ = server.flush().await;
+                            for _ in 0..3 {
+                                tokio::task::yield_now().await;
+                            }
+                        }
+                    }
+                };
+                let reader = async {
+                    let mut got = Vec::new();
+                    for _ in 0..msgs2.len() {
+                        match t.read().await {
+                            Ok(b) => got.push(b),
+                            Err(_) => break,
+                        }
+                    }
+                    got
+                };
+                let (_, got) = tokio::join!(writer, reader);
+                // transport -> peer: the bytes on the wire are the one-shot frames
+                let mut wire_want = Vec::new();
+                for x in &msgs2 {
+                    t.write(x).await.ok()?;
+                    wire_want.extend_from_slice(&frame_spec(m, x));
+                }
+                t.close();
+                let mut wire = Vec::new();
+                use tokio::io::AsyncReadExt;
+                let _ = server.read_to_end(&mut wire).await;
+                Some((got, wire == wire_want))
+            })
+        }));
+        match r {
+            Ok(Some((got, wire_ok))) => {
+                if got != msgs || !wire_ok {
+                    ctx.fail("transport", &format!("mode={} msgs={} read_ok={} wire_ok={}", m, msgs_text(&msgs), got == msgs, wire_ok));
+                }
+                ctx.count("transport_rounds");
+            }
+            Ok(None) => ctx.count("transport_skipped_no_loopback"),
+            Err(_) => ctx.fail("transport", &format!("panic mode={} msgs={}", m, msgs_text(&msgs))),
+        }
+    }
+}
+
+/// delays that outlast the read timeout (scripted reader, paused clock)
+fn stalls(ctx: &mut Ctx) {
+    let rt = tokio::runtime::Builder::new_current_thread().enable_time().start_paused(true).build().expect("paused runtime");
+    // the pinned witness of C05_not_delay_invariant
+    let w = vec![Ev::Chunk(vec![0, 3]), Ev::Stall, Ev::Chunk(vec![0, 1, 7])];
+    let res = run_read_retry(&rt, 'h', &w);
+    ctx.tie("kf-c05-timeout-desync", &format!("c05readt h {}", evs_text(&w)), &res.join(" "));
+    let n = ctx.n(300, 2500);
+    for _ in 0..n {
+        let m = if ctx.rng.chance(1, 2) { 'h' } else { 'd' };
+        let k = ctx.rng.range(1, 4) as usize;
+        let msgs: Vec<Vec<u8>> = (0..k)
+            .map(|_| {
+                let l = msg_len(&mut ctx.rng, m).min(40);
+                msg_bytes(&mut ctx.rng, l)
+            })
+            .collect();
+        let (stream, bounds) = stream_of(m, &msgs);
+        let cuts = random_cuts(&mut ctx.rng, stream.len(), &bounds);
+        let style = ctx.rng.below(3);
+        let mut evs = with_pendings(&mut ctx.rng, cut(&stream, &cuts), style);
+        let ns = ctx.rng.range(1, 2);
+        for _ in 0..ns {
+            let at = ctx.rng.below(evs.len() as u64 + 1) as usize;
+            evs.insert(at, Ev::Stall);
+        }
+        // is every stall at a frame boundary (no byte of a frame consumed yet)?
+        let frame_starts: Vec<usize> = bounds.iter().step_by(2).cloned().collect();
+        let mut pos = 0;
+        let mut harmless = true;
+        for e in &evs {
+            match e {
+                Ev::Chunk(b) => pos += b.len(),
+                Ev::Stall => harmless &= frame_starts.contains(&pos),
+                _ => {}
+            }
+        }
+        let res = run_read_retry(&rt, m, &evs);
+        let oks: Vec<String> = res.iter().filter(|t| t.starts_with("ok=")).cloned().collect();
+        let want: Vec<String> = msgs.iter().map(|x| format!("ok={}", hexarg(x))).collect();
+        if harmless {
+            ctx.tie("stall", &format!("c05readt {} {}", m, evs_text(&evs)), &res.join(" "));
+            ctx.count("stall_at_boundary");
+            if oks != want || res.last().map(|s| s.as_str()) != Some("err-eof") {
+                ctx.fail("stall-boundary", &format!("mode={} msgs={} events={} got={}", m, msgs_text(&msgs), evs_text(&evs), res.join(" ")));
+            }
+        } else {
+            // model-vs-code under the finding's class: the model mirrors the loss of the consumed bytes
+            ctx.tie("kf-c05-timeout-desync", &format!("c05readt {} {}", m, evs_text(&evs)), &res.join(" "));
+            ctx.count("stall_inside_frame");
+            if oks.iter().any(|t| !want.contains(t)) {
+                ctx.count("stall_inside_frame_bogus_message");
+            }
+        }
+    }
+}
+
+/// the same over the real `FramedTransport::read` (its own timeout) and the second copy, on a loopback socket with a
+/// real delay. The number of timeouts seen is an input of the model line, not a prediction.
+fn real_timeouts(ctx: &mut Ctx, rt: &tokio::runtime::Runtime) {
+    use edp_client::transport::FramedTransport;
+    let to = std::time::Duration::from_millis(60);
+    let delay = std::time::Duration::from_millis(260);
+    // 1. FramedTransport, handshake mode, message [0,1,7] delivered as [0,3] <delay> [0,1,7]
+    let r = std::panic::catch_unwind(std::panic::AssertUnwindSafe(|| {
+        rt.block_on(async move {
+            let listener = tokio::net::TcpListener::bind("127.0.0.1:0").await.ok()?;
+            let addr = listener.local_addr().ok()?;
+            let (client, server) = tokio::join!(tokio::net::TcpStream::connect(addr), listener.accept());
+            let (mut server, _) = server.ok()?;
+            server.set_nodelay(true).ok()?;
+            let mut t = FramedTransport::new(to);
+            t.connect(client.ok()?);
+            let writer = async {
+                let _ = server.write_all(&[0, 3]).await;
+                let _ = server.flush().await;
+                tokio::time::sleep(delay).await;
+                let _ = server.write_all(&[0, 1, 7]).await;
+                let _ = server.shutdown().await;
+                server
+            };
+            let reader = async {
+                let mut out = Vec::new();
+                for _ in 0..40 {
+                    match t.read().await {
+                        Ok(b) => out.push(format!("ok={}", hexarg(&b))),
+                        Err(edp_client::Error::Timeout(_)) => out.push("err-timeout".to_string()),
+                        Err(e) => {
+                            out.push(rh_class(&e));
+                            break;
+                        }
+                    }
+                }
+                out
+            };
+            let (_s, out) = tokio::join!(writer, reader);
+            Some(out)
+        })
+    }));
+    match r {
+        Ok(Some(res)) => {
+            let k = res.iter().take_while(|t| *t == "err-timeout").count();
+            if k == 0 {
+                ctx.count("real_timeout_not_triggered");
+            } else {
+                let mut evs = vec![Ev::Chunk(vec![0, 3])];
+                evs.extend(std::iter::repeat(Ev::Stall).take(k));
+                evs.push(Ev::Chunk(vec![0, 1, 7]));
+                ctx.tie("kf-c05-timeout-desync", &format!("c05readt h {}", evs_text(&evs)), &res.join(" "));
+                ctx.add("real_timeouts_seen", k as u64);
+                // the property: after a delay the message still arrives intact, or every later read fails; never another message
+                if res.iter().any(|t| t.starts_with("ok=") && t != "ok=000107") {
+                    ctx.fail(
+                        "kf-c05-timeout-desync",
+                        &format!(
+                            "FramedTransport(timeout=60ms, handshake) peer sends 0003, waits 260ms, sends 000107 (one frame, message 000107): reads = {}",
+                            res.join(" ")
+                        ),
+                    );
+                }
+            }
+        }
+        Ok(None) => ctx.count("transport_skipped_no_loopback"),
+        Err(_) => ctx.fail("transport", "panic in timeout scenario"),
+    }
+    // 2. the second copy: length bytes, delay, body. The retry reads the body's first bytes as a length.
+    let body = rh_body(&[1, 2, 3]);
+    let pre = (body.len() as u32).to_be_bytes().to_vec();
+    let (b2, p2) = (body.clone(), pre.clone());
+    let r = std::panic::catch_unwind(std::panic::AssertUnwindSafe(|| {
+        rt.block_on(async move {
+            let listener = tokio::net::TcpListener::bind("127.0.0.1:0").await.ok()?;
+            let addr = listener.local_addr().ok()?;
+            let (client, server) = tokio::join!(tokio::net::TcpStream::connect(addr), listener.accept());
+            let (mut server, _) = server.ok()?;
+            server.set_nodelay(true).ok()?;
+            let (mut rh, _wh) = client.ok()?.into_split();
+            let writer = async {
+                let _ = server.write_all(&p2).await;
+                let _ = server.flush().await;
+                tokio::time::sleep(delay).await;
+                let _ = server.write_all(&b2).await;
+                let _ = server.shutdown().await;
+                server
+            };
+            let reader = async {
+                let mut out = Vec::new();
+                for _ in 0..40 {
+                    match edp_client::Connection::receive_message_from_read_half(&mut rh, to).await {
+                        Ok((_, Some(erltf::OwnedTerm::Binary(b)))) => out.push(format!("ok={}", hexarg(&b))),
+                        Ok(_) => out.push("ok-other".to_string()),
+                        Err(edp_client::Error::Timeout(_)) => out.push("err-timeout".to_string()),
+                        Err(e) => {
+                            out.push(rh_class(&e));
+                            break;
+                        }
+                    }
+                }
+                out
+            };
+            let (_s, out) = tokio::join!(writer, reader);
+            Some(out)
+        })
+    }));
+    if let Ok(Some(res)) = r {
+        let k = res.iter().take_while(|t| *t == "err-timeout").count();
+        if k > 0 {
+            let mut evs = vec![Ev::Chunk(pre)];
+            evs.extend(std::iter::repeat(Ev::Stall).take(k));
+            evs.push(Ev::Chunk(body));
+            ctx.tie("kf-c05-timeout-desync", &format!("c05rht {} {}", hex(&CTL), evs_text(&evs)), &res.join(" "));
+            ctx.count("real_rh_timeout_cases");
+        } else {
+            ctx.count("real_timeout_not_triggered");
+        }
+    }
+}
+
+pub fn run(ctx: &mut Ctx) {
+    let rt = tokio::runtime::Builder::new_current_thread().enable_all().build().expect("runtime");
+    exhaustive(ctx, &rt);
+    boundaries(ctx, &rt);
+    random_streams(ctx, &rt);
+    writers(ctx, &rt);
+    second_copy(ctx, &rt);
+    transport_loopback(ctx, &rt);
+    stalls(ctx);
+    real_timeouts(ctx, &rt);
+}
